@@ -44,11 +44,12 @@ type VSpec struct {
 	KnownFrom int    `json:"known_from"` // the beacon node does not return it before this epoch
 }
 
-// Op is one scripted operation: "adv" (Dt nanoseconds) or "reorg" (Ep).
+// Op is one scripted operation: "adv" (Dt nanoseconds), "reorg" (Ep) or "head" (HandleHeadEvent for Slot).
 type Op struct {
-	Op string `json:"op"`
-	Dt int64  `json:"dt,omitempty"`
-	Ep int    `json:"ep,omitempty"`
+	Op   string `json:"op"`
+	Dt   int64  `json:"dt,omitempty"`
+	Ep   int    `json:"ep,omitempty"`
+	Slot int    `json:"slot,omitempty"`
 }
 
 // Script fixes everything a history depends on.
@@ -65,12 +66,33 @@ type Script struct {
 	Flip     []int    `json:"flip"`      // call numbers before which the beacon node changes its mind (version++)
 	OffEpoch bool     `json:"off_epoch"` // answers may contain slots outside the requested epoch (outside the input domain of the theorems)
 	DupSync  bool     `json:"dup_sync"`  // sync answers may repeat a validator with different data
+	// FM: feature flags: "" (none), "on" (fetch_att_on_block), "delay" (fetch_att_on_block_with_delay), "both".
+	FM string `json:"fm,omitempty"`
+	// FF: a fetch-only function is registered (RegisterFetcherFetchOnly).
+	FF bool `json:"ff,omitempty"`
+	// HookHeads: slots S for which HandleHeadEvent(S) is called after the ticker delivered S and before
+	// scheduleSlot(S) dispatches its duties (late tick / block right at the slot start).
+	HookHeads []int `json:"hook_heads,omitempty"`
+}
+
+// fmCoq renders the flag mode as the model's fmode.
+func (sc Script) fmCoq() string {
+	switch sc.FM {
+	case "on":
+		return "FOn"
+	case "delay", "both":
+		return "FOnDelay"
+	default:
+		return "FOff"
+	}
 }
 
 // History is a script and the labels observed when it ran.
 type History struct {
 	ID         int      `json:"id"`
 	Kind       string   `json:"kind"`
+	FM         string   `json:"fm"` // fmode of the model
+	FF         bool     `json:"ff"`
 	Script     Script   `json:"script"`
 	Labels     []string `json:"labels"`
 	NonTrivial bool     `json:"nontrivial"`
@@ -79,10 +101,9 @@ type History struct {
 
 // Stats summarises what a history exercised.
 type Stats struct {
-	Ticks, Skipped, Triggers, Resolutions, Failed, Aborted, EmptyActive, Reorgs, LastSlotResolves, Unknown, Inactive int
+	Ticks, Skipped, Triggers, Resolutions, Failed, Aborted, EmptyActive, Reorgs, LastSlotResolves, Unknown, Inactive, Heads, HookedHeads, Fetches, Fires int
 }
 
-var genesis = time.Date(2023, 1, 1, 0, 0, 0, 0, time.UTC)
 
 func pkBytes(pk uint64) (b eth2p0.BLSPubKey) {
 	binary.BigEndian.PutUint64(b[40:], pk)
@@ -189,8 +210,12 @@ func (t *tick) coq() string {
 type bn struct {
 	eth2wrap.Client // nil: unexpected calls panic
 
-	sc    Script
-	clock clockwork.Clock
+	sc      Script
+	clock   clockwork.Clock
+	genesis time.Time
+	flagsOn bool
+	fires   []string // LFire labels not yet emitted
+	fetches []string // definition sets handed to the fetch-only function, not yet consumed
 
 	mu       sync.Mutex
 	calls    int
@@ -205,8 +230,8 @@ type bn struct {
 	lastTick int64
 }
 
-func newBN(sc Script, clock clockwork.Clock) *bn {
-	b := &bn{sc: sc, clock: clock, pending: map[core.Duty][]time.Time{}, failSet: map[int]bool{}, badSet: map[int]bool{}, flipSet: map[int]bool{}, lastTick: -1}
+func newBN(sc Script, clock clockwork.Clock, genesis time.Time) *bn {
+	b := &bn{sc: sc, clock: clock, genesis: genesis, flagsOn: sc.FM != "", pending: map[core.Duty][]time.Time{}, failSet: map[int]bool{}, badSet: map[int]bool{}, flipSet: map[int]bool{}, lastTick: -1}
 	for _, x := range sc.Fail {
 		b.failSet[x] = true
 	}
@@ -221,7 +246,7 @@ func newBN(sc Script, clock clockwork.Clock) *bn {
 }
 
 func (b *bn) Genesis(context.Context, *eth2api.GenesisOpts) (*eth2api.Response[*eth2v1.Genesis], error) {
-	return &eth2api.Response[*eth2v1.Genesis]{Data: &eth2v1.Genesis{GenesisTime: genesis}}, nil
+	return &eth2api.Response[*eth2v1.Genesis]{Data: &eth2v1.Genesis{GenesisTime: b.genesis}}, nil
 }
 
 func (b *bn) NodeSyncing(context.Context, *eth2api.NodeSyncingOpts) (*eth2api.Response[*eth2v1.SyncState], error) {
@@ -255,7 +280,7 @@ func (b *bn) curResn() *resn {
 }
 
 func (b *bn) headEpoch() int {
-	ns := b.clock.Now().Sub(genesis).Nanoseconds()
+	ns := b.clock.Now().Sub(b.genesis).Nanoseconds()
 	return int(ns / b.sc.SlotNs / int64(b.sc.SPE))
 }
 
@@ -562,20 +587,49 @@ func (b *bn) subscriber(_ context.Context, duty core.Duty, set core.DutyDefiniti
 	defer b.mu.Unlock()
 
 	t := trig{ty: tyName(duty.Type), slot: duty.Slot, deadline: "None"}
+	viaDelay := false
 	if q := b.pending[duty]; len(q) > 0 {
-		t.deadline = fmt.Sprintf("(Some %d)", q[0].Sub(genesis).Nanoseconds())
+		t.deadline = fmt.Sprintf("(Some %d)", q[0].Sub(b.genesis).Nanoseconds())
 		b.pending[duty] = q[1:]
+		viaDelay = true
 	}
 	for pk, def := range set {
 		t.defs = append(t.defs, defCoq(pk, def))
 	}
 	sort.Strings(t.defs)
+	if b.flagsOn && duty.Type == core.DutyAttester && !viaDelay {
+		// With a flag on the attester goroutine waits on the clock itself and then calls the
+		// subscribers: observed at the current clock (fake clock = bubble time).
+		b.fires = append(b.fires, fmt.Sprintf("LFire %d [%s]", duty.Slot, strings.Join(t.defs, "; ")))
+		b.st.Fires++
+
+		return nil
+	}
 	if b.cur == nil {
 		b.stray = append(b.stray, "trigger outside a tick: "+t.coq())
 		return nil
 	}
 	b.cur.trigs = append(b.cur.trigs, t)
 	b.st.Triggers++
+
+	return nil
+}
+
+// fetchOnly is the registered fetch-only function (early attestation-data fetch).
+func (b *bn) fetchOnly(_ context.Context, duty core.Duty, set core.DutyDefinitionSet, _ string, _ eth2p0.Root) error {
+	b.mu.Lock()
+	defer b.mu.Unlock()
+
+	var defs []string
+	for pk, def := range set {
+		defs = append(defs, defCoq(pk, def))
+	}
+	sort.Strings(defs)
+	if duty.Type != core.DutyAttester {
+		b.stray = append(b.stray, "fetch-only for a non-attester duty")
+	}
+	b.fetches = append(b.fetches, fmt.Sprintf("%d|(Some [%s])", duty.Slot, strings.Join(defs, "; ")))
+	b.st.Fetches++
 
 	return nil
 }
@@ -588,8 +642,24 @@ func runScript(t *testing.T, sc Script) ([]string, Stats) {
 		st     Stats
 	)
 	synctest.Test(t, func(t *testing.T) {
-		clock := clockwork.NewFakeClockAt(genesis.Add(time.Duration(sc.StartNs)))
-		b := newBN(sc, clock)
+		switch sc.FM {
+		case "on":
+			featureset.EnableForT(t, featureset.FetchAttOnBlock)
+		case "delay":
+			featureset.EnableForT(t, featureset.FetchAttOnBlockWithDelay)
+		case "both":
+			featureset.EnableForT(t, featureset.FetchAttOnBlock)
+			featureset.EnableForT(t, featureset.FetchAttOnBlockWithDelay)
+		}
+		// The fake clock is kept equal to the bubble's time (waitForEarlyFetchOrTimeout mixes both:
+		// s.clock.After(time.Until(deadline))): every advance sleeps first, then advances the fake clock.
+		genesis := time.Now().Add(-time.Duration(sc.StartNs))
+		clock := clockwork.NewFakeClockAt(time.Now())
+		b := newBN(sc, clock, genesis)
+		hookHeads := map[uint64]bool{}
+		for _, x := range sc.HookHeads {
+			hookHeads[uint64(x)] = true
+		}
 		tickCh := make(chan core.Slot)
 		ackCh := make(chan struct{})
 		schedSlot := func(_ context.Context, slot core.Slot) {
@@ -598,6 +668,9 @@ func runScript(t *testing.T, sc Script) ([]string, Stats) {
 		}
 		sched := scheduler.NewForT(t, clock, b.delay, nil, b, schedSlot, false)
 		sched.SubscribeDuties(b.subscriber)
+		if sc.FF {
+			sched.RegisterFetcherFetchOnly(b.fetchOnly)
+		}
 		done := make(chan error, 1)
 		go func() { done <- sched.Run() }()
 
@@ -627,12 +700,45 @@ func runScript(t *testing.T, sc Script) ([]string, Stats) {
 				b.cur = nil
 			}
 		}
+		flushFires := func() {
+			b.mu.Lock()
+			defer b.mu.Unlock()
+			sort.Strings(b.fires)
+			labels = append(labels, b.fires...)
+			b.fires = nil
+		}
+		head := func(slot int, hooked bool) {
+			sched.HandleHeadEvent(context.Background(), eth2p0.Slot(slot), eth2p0.Root{0xaa}, "http://bn")
+			synctest.Wait()
+			b.mu.Lock()
+			defer b.mu.Unlock()
+			b.st.Heads++
+			if hooked {
+				b.st.HookedHeads++
+			}
+			res := "None"
+			for _, f := range b.fetches {
+				parts := strings.SplitN(f, "|", 2)
+				if parts[0] == fmt.Sprint(slot) && res == "None" {
+					res = parts[1]
+				} else {
+					b.stray = append(b.stray, "unexpected fetch-only call "+f)
+				}
+			}
+			b.fetches = nil
+			labels = append(labels, fmt.Sprintf("LHead %d %s", slot, res))
+		}
 		observe := func() {
 			for {
 				synctest.Wait()
 				select {
 				case slot := <-tickCh:
 					closeTick()
+					flushFires()
+					if hookHeads[slot.Slot] {
+						// the ticker delivered the slot, scheduleSlot has not dispatched it yet
+						head(int(slot.Slot), true)
+					}
 					b.mu.Lock()
 					b.cur = &tick{slot: slot.Slot}
 					b.st.Ticks++
@@ -644,6 +750,7 @@ func runScript(t *testing.T, sc Script) ([]string, Stats) {
 					ackCh <- struct{}{}
 				default:
 					closeTick()
+					flushFires()
 					labels = append(labels, "LQuiet")
 					return
 				}
@@ -653,7 +760,11 @@ func runScript(t *testing.T, sc Script) ([]string, Stats) {
 		observe()
 		for _, op := range sc.Ops {
 			switch op.Op {
+			case "head":
+				head(op.Slot, false)
+				observe()
 			case "adv":
+				time.Sleep(time.Duration(op.Dt))
 				clock.Advance(time.Duration(op.Dt))
 				labels = append(labels, fmt.Sprintf("LAdv %d", op.Dt))
 				observe()
@@ -745,9 +856,27 @@ func genScript(r *rand.Rand, kind string) Script {
 	sc.DupSync = r.Intn(4) == 0
 	sc.OffEpoch = kind == "offepoch"
 
+	if kind == "flags" {
+		sc.FM = []string{"on", "delay", "both"}[r.Intn(3)]
+		sc.FF = r.Intn(6) != 0
+	} else if r.Intn(10) == 0 {
+		sc.FF = true // a fetch-only function without flags: head events must do nothing
+	}
 	nops := 8 + r.Intn(40)
 	quietBN := r.Intn(4) == 0 // no failures at all
+	cur := sc.StartNs
 	for i := 0; i < nops; i++ {
+		if (kind == "flags" && r.Intn(3) == 0) || (kind != "flags" && r.Intn(30) == 0) {
+			// head event for the previous / current / next slot, at the current instant
+			sl := cur/sc.SlotNs + int64([]int{-1, 0, 0, 0, 1}[r.Intn(5)])
+			if sl < 0 {
+				sl = 0
+			}
+			sc.Ops = append(sc.Ops, Op{Op: "head", Slot: int(sl)})
+			if r.Intn(4) == 0 { // a repeated head event
+				sc.Ops = append(sc.Ops, Op{Op: "head", Slot: int(sl)})
+			}
+		}
 		switch x := r.Intn(20); {
 		case x < 10: // next slot
 			sc.Ops = append(sc.Ops, Op{Op: "adv", Dt: sc.SlotNs})
@@ -763,6 +892,21 @@ func genScript(r *rand.Rand, kind string) Script {
 			sc.Ops = append(sc.Ops, Op{Op: "reorg", Ep: e0 + r.Intn(5) - 1 + i/int(spe+1)})
 		default:
 			sc.Ops = append(sc.Ops, Op{Op: "adv", Dt: sc.SlotNs + 1})
+		}
+		cur = sc.StartNs
+		for _, op := range sc.Ops {
+			cur += op.Dt
+		}
+	}
+	cur = sc.StartNs
+	for _, op := range sc.Ops {
+		cur += op.Dt
+	}
+	if kind == "flags" {
+		for sl := startSlot; sl <= cur/sc.SlotNs; sl++ {
+			if r.Intn(3) == 0 {
+				sc.HookHeads = append(sc.HookHeads, int(sl))
+			}
 		}
 	}
 	if !quietBN {
@@ -817,6 +961,16 @@ func corpus() []Script {
 		{SPE: 2, SlotNs: s, StartNs: 0, Vals: v2, Seed: 12, Ops: slots(6, s), BadPK: []int{1, 6, 11}},
 		// one slot per epoch (every slot is first and last)
 		{SPE: 1, SlotNs: 1_000_000_007, StartNs: 5, Vals: v2, Extra: []uint64{70}, Seed: 13, Ops: slots(7, 1_000_000_007), Fail: []int{5}},
+		// flags: head event between the tick's delivery and its dispatch (slots 1, 2, 5), before the slot (6), after the release (2), repeated
+		{SPE: 4, SlotNs: s, StartNs: 0, Vals: v2, Seed: 15, FM: "on", FF: true, HookHeads: []int{1, 2, 5},
+			Ops: []Op{{Op: "adv", Dt: s}, {Op: "adv", Dt: s}, {Op: "adv", Dt: s / 3}, {Op: "head", Slot: 2}, {Op: "adv", Dt: s - s/3}, {Op: "head", Slot: 3}, {Op: "head", Slot: 3},
+				{Op: "adv", Dt: s / 2}, {Op: "adv", Dt: s / 2}, {Op: "adv", Dt: s}, {Op: "head", Slot: 6}, {Op: "adv", Dt: s}, {Op: "adv", Dt: s}, {Op: "adv", Dt: s}}},
+		// with_delay flag: release at 1/3 slot + 300ms; clock steps just before and at the release instant
+		{SPE: 4, SlotNs: s, StartNs: 0, Vals: v2, Seed: 16, FM: "delay", FF: true, HookHeads: []int{1, 3},
+			Ops: []Op{{Op: "adv", Dt: s}, {Op: "adv", Dt: s / 3}, {Op: "adv", Dt: 299_999_999}, {Op: "adv", Dt: 1}, {Op: "adv", Dt: s - s/3 - 300_000_000}, {Op: "adv", Dt: s}, {Op: "adv", Dt: s/3 + 300_000_000}, {Op: "adv", Dt: s}}},
+		// both flags, no fetch-only function registered; reorg while an attester duty waits
+		{SPE: 4, SlotNs: s, StartNs: 0, Vals: v2, Seed: 17, FM: "both", FF: false, HookHeads: []int{1, 2},
+			Ops: []Op{{Op: "adv", Dt: s}, {Op: "head", Slot: 1}, {Op: "reorg", Ep: 0}, {Op: "adv", Dt: s}, {Op: "adv", Dt: s}, {Op: "adv", Dt: 3 * s}, {Op: "adv", Dt: s}}},
 		// validator pending -> active -> exited, another unknown at first
 		{SPE: 2, SlotNs: s, StartNs: 0, Vals: []VSpec{{Idx: 10, PK: 100, Act: 1, Exit: 3}, {Idx: 11, PK: 101, Act: 2, Exit: 1 << 30, KnownFrom: 2}}, Seed: 14, Ops: slots(10, s)},
 	}
@@ -837,6 +991,7 @@ func TestGen(t *testing.T) {
 		h := History{ID: 0, Kind: "replay", Script: replay.Script}
 		h.Labels, h.Stats = runScript(t, h.Script)
 		h.NonTrivial = nonTrivial(h.Stats)
+		h.FM, h.FF = h.Script.fmCoq(), h.Script.FF
 		if err := hx.WriteJSON("scheduler_traces.json", []History{h}); err != nil {
 			t.Fatal(err)
 		}
@@ -852,14 +1007,18 @@ func TestGen(t *testing.T) {
 	}
 	for len(hs) < n {
 		kind := "random"
-		if r.Intn(8) == 0 {
+		switch x := r.Intn(16); {
+		case x < 2:
 			kind = "offepoch"
+		case x < 8:
+			kind = "flags"
 		}
 		hs = append(hs, History{ID: len(hs), Kind: kind, Script: genScript(r, kind)})
 	}
 	for i := range hs {
 		hs[i].Labels, hs[i].Stats = runScript(t, hs[i].Script)
 		hs[i].NonTrivial = nonTrivial(hs[i].Stats)
+		hs[i].FM, hs[i].FF = hs[i].Script.fmCoq(), hs[i].Script.FF
 	}
 	if err := hx.WriteJSON("scheduler_traces.json", hs); err != nil {
 		t.Fatal(err)
